@@ -111,6 +111,33 @@ def items(repo):
             return [str(p), str(p.to_week_date()), str(p.to_ordinal_date())]
         except ValueError as exc:
             return "error:" + type(exc).__name__
+    # instants counted from the Unix epoch (calendar arithmetic from 1970)
+    for n in (951782400, 1396429200, 68169600, -86400 * 400):
+        add("epoch/props/%d" % n, lambda n=n: [
+            D.get_timepoint_properties_from_seconds_since_unix_epoch(n).get(k)
+            for k in ("year", "month_of_year", "day_of_month", "day_of_year",
+                      "week_of_year", "day_of_week", "hour_of_day")])
+    add("epoch/point", lambda: key(
+        D.get_timepoint_from_seconds_since_unix_epoch(1078099200).to_utc()))
+    add("epoch/strptime", lambda: key(P.TimePointParser(
+        assumed_time_zone=(0, 0)).strptime("951782400", "%s").to_utc()))
+    add("epoch/seconds", lambda: [
+        tp(year=2000, month_of_year=3, day_of_month=1, hour_of_day=0,
+           time_zone_hour=0, time_zone_minute=0).seconds_since_unix_epoch,
+        tp(year=2004, day_of_year=360, hour_of_day=0, time_zone_hour=0,
+           time_zone_minute=0).seconds_since_unix_epoch,
+        tp(year=1969, week_of_year=10, day_of_week=2, hour_of_day=0,
+           time_zone_hour=0, time_zone_minute=0).seconds_since_unix_epoch])
+    add("dump/strftime", lambda: [
+        tp(year=2000, day_of_year=60, hour_of_day=6, time_zone_hour=0,
+           time_zone_minute=0).strftime("%Y-%m-%d %j %s"),
+        tp(year=2001, week_of_year=9, day_of_week=4, hour_of_day=6,
+           time_zone_hour=0, time_zone_minute=0).strftime("%F %j")])
+    add("dump/format", lambda: [
+        repo.dumpers.TimePointDumper().dump(
+            tp(year=2000, month_of_year=2, day_of_month=28, hour_of_day=23,
+               time_zone_hour=0, time_zone_minute=0), fmt)
+        for fmt in ("CCYY-DDDThh+0530", "CCYY-Www-DThhZ", "CCYYMMDDThh-0100")])
     add("parse/feb30", lambda: parse("2000-02-30T00Z"))
     add("parse/doy360", lambda: parse("2000-360T12Z"))
     add("parse/w52", lambda: parse("2001-W52-7T00Z"))
@@ -125,6 +152,9 @@ CLI_ITEMS = [
     ("cli/total", ["2001-01-01T00Z", "2002-01-01T00Z", "--as-total", "H"]),
     ("cli/rec", ["R3/2000-02-28T00Z/P1D", "--max=3"]),
     ("cli/format", ["2000-12-30T00Z", "-f", "CCYY-DDD", "--offset", "P1D"]),
+    ("cli/epoch", ["--parse-format=%s", "951782400", "--utc",
+                   "--print-format=CCYY-MM-DDThh"]),
+    ("cli/print-epoch", ["2000-03-01T00Z", "--print-format=%s %j"]),
 ]
 
 
